@@ -230,7 +230,7 @@ def _plan(tier, seed):
 
 PER_BOOK = 150
 # hand-picked operator mixes that the enumerations do not produce (several decorations at once, chained %)
-SPECIAL = ['=A1%%', '=5%%', '=A1%%+B1', '=(A1)%%', '=-A1%', '=-A1%*-B1%', '=-(A1+B1)%', '=--A1', '=-+-A1', '=A1--B1', '=A1-+B1', '=(A1+B1)*A1+B1', '=(A1-B1)-A1-B1', '=(A1+B1)%*A1+B1', '=2*(A1+B1)*A1+B1', '=(1+2)*1+2', '=(A1-B1)/A1-B1', '=(A1*B1)+A1*B1', '=(A1+B1)*$A$1+B$1',
+SPECIAL = ['=0/-5&""', '=(0*-2.5)&"|"', '=-0%&"x"', '=-(0/3)&""', '=G1/-B1&"x"', '=G1*-0.5&""', '="<"&0/-B1&">"', '=-G1%&"p"', '=0/-5=0', '=A1%%', '=5%%', '=A1%%+B1', '=(A1)%%', '=-A1%', '=-A1%*-B1%', '=-(A1+B1)%', '=--A1', '=-+-A1', '=A1--B1', '=A1-+B1', '=(A1+B1)*A1+B1', '=(A1-B1)-A1-B1', '=(A1+B1)%*A1+B1', '=2*(A1+B1)*A1+B1', '=(1+2)*1+2', '=(A1-B1)/A1-B1', '=(A1*B1)+A1*B1', '=(A1+B1)*$A$1+B$1',
            '=(A1&B1)&A1&B1=A1&B1', '=(A1<B1)=A1<B1', '=(A1-B1)*(A1-B1)-A1-B1',
            '=A1*-B1', '=A1/-B1%', '=-A1*B1+C1', '=-(A1)*B1', '=(-A1)%', '=((A1))', '=((A1+B1))*((C1))', '=(A1+B1)%*C1',
            '=(A1+B1)%+C1', '=(A1+B1)%-C1', '=(A1+B1)%/C1', '=(A1+B1)%&A2', '=A2&(A1+B1)%', '=A1+B1%+C1%', '=A1%+B1%', '=A1%-B1',
